@@ -71,6 +71,7 @@ type Sim struct {
 	restartedSinceBlock bool                        // the node was restarted and has not executed a block since
 	members             map[string]map[string]bool  // session header hash -> addresses seen in its node list (dispatch)
 	memberHeaders       map[string]pc.SessionHeader // session header hash -> header
+	pastServed          []servedTuple               // C35: (application, chain, session, servicer, height) of relays that were served
 	sentToModule        map[string]sdk.BigInt       // module account name -> coins it received through plain sends
 	outsider            map[string]bool             // claim keys of claims made by nodes outside the session
 	replay              bool
